@@ -13,7 +13,7 @@ import (
 func init() {
 	register(&Property{
 		ID:        "C02",
-		Technique: "guard dominance and path-sensitive typestate on go/ssa (dispatch guards, semaphore pairing), value flow for stream ids, who-may-call",
+		Technique: "guard dominance and path-sensitive typestate on go/ssa (dispatch guards, semaphore pairing), value flow for stream ids, who-may-call; tested-then-dropped error (contradiction) check and interprocedural lock-pairing check over the packages the property is anchored in",
 		Explanation: "Structural conditions of stream isolation on a reused connection: " +
 			"(R1) every effect of Stream.HandlePacket is behind the stream-id equality test and (except stats) the not-terminated test; " +
 			"(R2) the reader delivers a packet to the current stream only under curr != nil && id == curr.ID() on the same stream value, and every later effect of the dispatch (cancelling the current stream, forwarding an invoke, waiting for a stream) is behind 'not an older stream id'; " +
